@@ -219,6 +219,7 @@ def run_case(ctx, run, name, case, replaying=False):
         if m:
             M[(m.group(1), int(m.group(2)))] = l
     # ---- sequential lines: spec on the C side, then correspondence
+    diverged = False
     for tr, label in ((ta, "asan"), (tt, "tsan")):
         for l in tr.split("\n"):
             m = re.match(r"S (\d+) (\S+) (\d+) ?(\S*)", l)
@@ -240,16 +241,18 @@ def run_case(ctx, run, name, case, replaying=False):
                 key = "refresh-leaves-invalid:nomemattr-user-attr" if kind == "nomemattr" else "refresh-leaves-invalid:%s" % kind
                 run.violation(key, "hwloc_topology_refresh left caches invalid (dv=%s mv=%s)" % (dv, mv), replay + "\n" + l)
             ml = M.get(("S", n))
-            if label == "asan" and ml is not None:
+            if label == "asan" and ml is not None and not diverged:
                 # spec: a consulting call on an all-valid topology changes no cache (pre-state = model's, checked equal below)
                 cmpf = ["rc", "nd", "dv", "mv"] + (["chg"] if k == "cons" else [])
                 diff = [f for f in cmpf if fieldv(l, f) != fieldv(ml, f)]
                 if diff:
+                    diverged = True      # later lines of this case follow from the same divergence
                     run.violation("correspondence:%s-%s:%s" % (k, what, ",".join(diff)),
                                   "model and implementation differ on %s line %d (%s): impl %r model %r" % (name, n, ",".join(diff), l, ml),
                                   "kind: correspondence\n" + replay + "\nimpl: %s\nmodel: %s\n" % (l, ml), no_input=True)
                 else:
                     run.cov["traces_validated_against_impl"] += 1
+                    run.count(l, nontrivial=True, kind="call:" + k)
     # consulting call with all flags valid before and chg=1 after: spec violation on the implementation
     prev_valid = {}
     for l in ta.split("\n"):
@@ -336,7 +339,7 @@ def check(run, replay=None):
                 cases.append(("corpus/" + n, open(os.path.join(cdir, n)).read().replace("@REPO@", C.REPO)))
     rng = run.rng
     thorough = run.tier == "thorough"
-    reps = 6 if thorough else 1
+    reps = 24 if thorough else 3
     for r in range(reps):
         for T in (2, 4, 16):
             cases.append(("readers-warm-T%d-%d" % (T, r), G.readers(rng, C.REPO, T, "readers-warm")))
